@@ -187,12 +187,15 @@ const char *CANARY_PROP;
 struct blk { uint8_t *p; size_t n; uint8_t *base; };
 static struct blk *blks; static size_t nblk, capblk;
 #define CANARY 16
-void *xalloc(size_t n)
+static void *xalloc_off(size_t n, size_t off);
+void *xalloc(size_t n) { return xalloc_off(n, 0); }
+/* off: the block starts that many bytes behind an aligned address (byte buffers only: a uint8_t array may sit at any address) */
+static void *xalloc_off(size_t n, size_t off)
 {
-        size_t tot = VERIF_ASAN ? n : n + CANARY;
+        size_t tot = (VERIF_ASAN ? n : n + CANARY) + off;
         uint8_t *base, *p;
         if (VERIF_ASAN && n == 0) { base = malloc(8); p = base ? base + 8 : NULL; }      /* ASan turns malloc(0) into malloc(1): hand out the end of a block instead, so that touching byte 0 of a zero-sized block is reported */
-        else base = p = malloc(tot);
+        else { base = malloc(tot); p = base ? base + off : NULL; }
         if (!p) { fprintf(stderr, "oom\n"); exit(2); }
         if (!VERIF_ASAN)
                 for (size_t i = 0; i < CANARY; i++) p[n + i] = (uint8_t)(0xC5 ^ (i * 7));
@@ -223,10 +226,16 @@ void canary_check(const char *where)
 struct world W;
 bool NEXT_WORLD_USE_MUTEX; unsigned EMPTY_TABLE_PM = 160;
 static struct cat_object *SHADOW;          /* second, unrelated parser instance (see below) */
+unsigned POOL_PCT = 30;
+static struct cat_command *pool; static size_t pool_left;
+const char *const LORE[] = { "\xEF\xBB\xBF", "A/", "a/", ";", "+++", "\xFF\xFB\x01", "\xFF\xFD\x03", "\x1b[A", "\x1b[2J", "\xFE\xFF", "\xFF\xFE", "\x1a", "\x7f", "\b", "> ", "\x11", "\x13", "\xC3\xA9", "\x03", "\x04" };
+const unsigned N_LORE = sizeof LORE / sizeof LORE[0];
 void w_begin(void)
 {
         xfree_all();
         memset(&W, 0, sizeof W);
+        pool = NULL; pool_left = 0;
+        if (chance(POOL_PCT)) { pool_left = 2 + rn(40); pool = xalloc(pool_left * sizeof *pool); memset(pool, 0, pool_left * sizeof *pool); CNT("worlds_with_adjacent_group_arrays"); }
         W.gptr = NULL;
         W.use_mutex = NEXT_WORLD_USE_MUTEX;
         SHADOW = NULL;
@@ -236,7 +245,9 @@ struct cat_command *w_group(size_t ncmd, bool disable)
         if (W.ngroups >= MAXGRP || W.ncmds + ncmd > MAXCMD) { fprintf(stderr, "table too large\n"); exit(2); }
         struct cat_command_group *g = xalloc(sizeof *g);
         memset(g, 0, sizeof *g);
-        struct cat_command *arr = xalloc(ncmd * sizeof *arr);
+        struct cat_command *arr;
+        if (pool && ncmd <= pool_left) { arr = pool; pool += ncmd; pool_left -= ncmd; if (W.ngroups) CNT("groups_starting_where_the_previous_array_ends"); }       /* one array split into groups */
+        else { arr = xalloc(ncmd * sizeof *arr); pool = NULL; }
         memset(arr, 0, ncmd * sizeof *arr);
         g->cmd = arr; g->cmd_num = ncmd; g->disable = disable; g->name = NULL;
         for (size_t j = 0; j < ncmd; j++) { W.cmd[W.ncmds] = &arr[j]; W.grp_of[W.ncmds] = (int)W.ngroups; W.ncmds++; }
@@ -274,8 +285,8 @@ void *w_vdata(struct cat_variable *v, size_t size)
 void w_buffers(size_t bufsz, bool shared, size_t ubufsz)
 {
         W.bufsz = bufsz; W.shared = shared; W.ubufsz = shared ? 0 : ubufsz;
-        W.buf = xalloc(bufsz);
-        W.ubuf = shared ? NULL : xalloc(ubufsz);
+        W.buf = xalloc_off(bufsz, chance(40) ? 1 + rn(3) : 0);          /* the working buffers are byte arrays: no alignment is promised to the library */
+        W.ubuf = shared ? NULL : xalloc_off(ubufsz, chance(40) ? 1 + rn(3) : 0);
         W.capA = shared ? bufsz >> 1 : bufsz;
         W.capU = shared ? bufsz >> 1 : ubufsz;
         W.bufA = W.buf;
@@ -406,6 +417,7 @@ void w_init(int fillmode)
         W.desc->buf = W.buf; W.desc->buf_size = W.bufsz;
         W.desc->unsolicited_buf = W.shared ? NULL : W.ubuf;
         W.desc->unsolicited_buf_size = W.shared ? 0 : W.ubufsz;
+        if (W.shared && chance(30)) { W.desc->unsolicited_buf_size = chance(50) ? 1 + rn((unsigned)W.bufsz) : chance(50) ? W.bufsz * 2 : (size_t)rnd(); CNT("shared_buffer_descriptors_with_a_left_over_event_buffer_size"); }   /* ignored without an event buffer */
         w_reinit(fillmode);
 }
 int cmd_index(const struct cat_command *c)
@@ -478,8 +490,10 @@ void out_reset(void) { OUTN = 0; }
 int MX_DEPTH; long MX_LOCKS, MX_UNLOCKS; long MX_FAIL_LOCK_AT = -1, MX_FAIL_UNLOCK_AT = -1;
 void (*ON_LOCK)(bool, int); void (*ON_LOCK_WAIT)(long);
 static const int MX_FAIL_VALUES[6] = { 1, -1, 16, -16, 255, -2147483647 - 1 };
+bool MX_FOREIGN_CALLER; long MX_FOREIGN_LOCKS;      /* the call in progress is made by another party while the mutex is held: its attempt to lock fails (a timed / try lock), it is not counted among the calls of the history */
 static int mx_lock(void)
 {
+        if (MX_FOREIGN_CALLER && MX_DEPTH != 0) { MX_FOREIGN_LOCKS++; ev(EV_LOCK, -1, 16, 0); return 16; }
         long k = MX_LOCKS++;
         int r = 0;
         if (ON_LOCK_WAIT) ON_LOCK_WAIT(k);      /* the caller waits for the mutex here: whoever holds it may complete whole API calls meanwhile */
@@ -719,7 +733,7 @@ static void object_invariants(void)
 #endif
 cat_status svc(void)
 {
-        int pair = ((int)W.at->state + 1) * 11 + (int)W.at->unsolicited_fsm.state;
+        int pair = OBJ_FIELDS ? (OBJ_STATE() + 1) * 11 + OBJ_USTATE() : -1;      /* coverage accounting only */
         if (pair >= 0 && pair < 27 * 11) {
                 pair_seen[pair] = 1;
                 if (prev_pair >= 0 && trans_seen) { size_t t = (size_t)prev_pair * 297 + (size_t)pair; trans_seen[t >> 3] |= (uint8_t)(1u << (t & 7)); }
